@@ -36,6 +36,29 @@ def link_parents(tree: ast.AST) -> None:
             child._parent = node  # type: ignore[attr-defined]
 
 
+def clone(node):
+    """Deep copy of a syntax (sub)tree. Unlike copy.deepcopy it does not
+    follow the `_parent` link of the root (which would copy the whole
+    module); parent links inside the copy are set."""
+    if isinstance(node, ast.AST):
+        new = node.__class__()
+        for f in node._fields:
+            if hasattr(node, f):
+                v = clone(getattr(node, f))
+                setattr(new, f, v)
+                # parent links inside the copy (the copy's root has none)
+                for c in (v if isinstance(v, list) else [v]):
+                    if isinstance(c, ast.AST):
+                        c._parent = new  # type: ignore[attr-defined]
+        for a in node._attributes:
+            if hasattr(node, a):
+                setattr(new, a, getattr(node, a))
+        return new
+    if isinstance(node, list):
+        return [clone(x) for x in node]
+    return node
+
+
 def parent(node: ast.AST) -> ast.AST | None:
     return getattr(node, "_parent", None)
 
